@@ -19,9 +19,10 @@ import (
 // function and which Differ side (1 or 2; 0 unknown) the callback's first row parameter
 // belongs to (taken from the `tbl1` argument of the call: a load of Differ.tbl1 / Differ.tbl2).
 type diffPass struct {
-	call  ssa.CallInstruction
-	cb    *ssa.Function
-	sideA int
+	call   ssa.CallInstruction
+	cb     *ssa.Function
+	sideA  int
+	holder *ssa.Function // the function the call sits in (diffRows or a helper it calls)
 }
 
 func diffPasses(p *Program) (*ssa.Function, []diffPass, error) {
@@ -34,36 +35,90 @@ func diffPasses(p *Program) (*ssa.Function, []diffPass, error) {
 		return nil, nil, err
 	}
 	var out []diffPass
-	for _, c := range callsTo(fn, iam) {
-		args := c.Common().Args
-		dp := diffPass{call: c}
-		switch x := args[len(args)-1].(type) {
-		case *ssa.MakeClosure:
-			dp.cb, _ = x.Fn.(*ssa.Function)
-		case *ssa.Function:
-			dp.cb = x
+	// the passes of diffRows: its own calls of iterateAndMatch and those of the helpers of the
+	// package it calls (a phase per method, refactoring A7-r1), in the order of diffRows' calls
+	var collect func(f *ssa.Function, depth int)
+	seen := map[*ssa.Function]bool{}
+	collect = func(f *ssa.Function, depth int) {
+		if seen[f] {
+			return
 		}
-		// the first *objects.Table argument decides the orientation
-		for _, a := range args {
-			if !strings.HasSuffix(a.Type().String(), "objects.Table") {
-				continue
+		seen[f] = true
+		eachCall(f, func(c ssa.CallInstruction) {
+			if fc := calleeFunc(c); fc != nil && iam[fc] {
+				out = append(out, mkDiffPass(c, f))
+				return
 			}
-			if u, ok := stripConv(a).(*ssa.UnOp); ok && u.Op == token.MUL {
-				if fa, ok := u.X.(*ssa.FieldAddr); ok {
-					name := fieldNameOf(fa)
-					switch {
-					case strings.HasSuffix(name, "1"):
-						dp.sideA = 1
-					case strings.HasSuffix(name, "2"):
-						dp.sideA = 2
+			if sc := c.Common().StaticCallee(); sc != nil && depth > 0 && len(sc.Blocks) > 0 && fnPkgPath(sc) == fnPkgPath(fn) {
+				collect(sc, depth-1)
+			}
+		})
+	}
+	collect(fn, 2)
+	return fn, out, nil
+}
+
+func mkDiffPass(c ssa.CallInstruction, holder *ssa.Function) diffPass {
+	args := c.Common().Args
+	dp := diffPass{call: c, holder: holder}
+	switch x := args[len(args)-1].(type) {
+	case *ssa.MakeClosure:
+		dp.cb, _ = x.Fn.(*ssa.Function)
+	case *ssa.Function:
+		dp.cb = x
+	}
+	// the first *objects.Table argument decides the orientation
+	for _, a := range args {
+		if !strings.HasSuffix(a.Type().String(), "objects.Table") {
+			continue
+		}
+		if u, ok := stripConv(a).(*ssa.UnOp); ok && u.Op == token.MUL {
+			if fa, ok := u.X.(*ssa.FieldAddr); ok {
+				name := fieldNameOf(fa)
+				switch {
+				case strings.HasSuffix(name, "1"):
+					dp.sideA = 1
+				case strings.HasSuffix(name, "2"):
+					dp.sideA = 2
+				}
+			}
+		}
+		break
+	}
+	return dp
+}
+
+// argToken names an argument so that the arguments of two calls in two methods of one receiver
+// type can be compared: a load of a field of the method's receiver is that field.
+func argToken(v ssa.Value, holder *ssa.Function) string {
+	v = stripConv(v)
+	if u, ok := v.(*ssa.UnOp); ok && u.Op == token.MUL {
+		if fa, ok := u.X.(*ssa.FieldAddr); ok {
+			base := fa.X
+			if l, ok := base.(*ssa.UnOp); ok && l.Op == token.MUL {
+				base = l.X // receiver captured by a closure
+			}
+			isRecv := false
+			if holder != nil && holder.Signature.Recv() != nil && len(holder.Params) > 0 && base == ssa.Value(holder.Params[0]) {
+				isRecv = true
+			}
+			if _, isFree := base.(*ssa.FreeVar); isFree {
+				isRecv = true
+			}
+			// a receiver that a closure captures is spilled to a cell
+			if al, ok := base.(*ssa.Alloc); ok && holder != nil && holder.Signature.Recv() != nil && len(holder.Params) > 0 {
+				for _, st := range cellStores(al) {
+					if st.Val == ssa.Value(holder.Params[0]) {
+						isRecv = true
 					}
 				}
 			}
-			break
+			if isRecv {
+				return "recv." + fieldNameOf(fa)
+			}
 		}
-		out = append(out, dp)
 	}
-	return fn, out, nil
+	return fmt.Sprintf("%p", v)
 }
 
 func fieldNameOf(fa *ssa.FieldAddr) string {
